@@ -130,6 +130,33 @@ def check_overload(site, r, ov, kind, cls, where):
     return probs
 
 
+def _perfect_matching(sites, want):
+    """Is there a one-to-one assignment of call sites to declared (arity, families) entries in
+    which every site is compatible with its entry (templated types are labels)?"""
+    slots = list(want.elements())
+    if len(slots) != len(sites):
+        return False
+    fams = [(s.nargs, site_families(s)) for s in sites]
+
+    def ok(i, j):
+        n, fam = fams[i]
+        k = slots[j]
+        return k[0] == n and len(k[1]) == len(fam) and all(
+            x == y or (y == 'TEMPLATED' and x not in BASIC) for x, y in zip(fam, k[1]))
+    owner = {}
+
+    def augment(i, seen):
+        for j in range(len(slots)):
+            if j in seen or not ok(i, j):
+                continue
+            seen.add(j)
+            if j not in owner or augment(owner[j], seen):
+                owner[j] = i
+                return True
+        return False
+    return all(augment(i, set()) for i in range(len(sites)))
+
+
 def check(case):
     STRICT[0] = bool(case.get('strict'))
     from vlib import refmat as _rm
@@ -158,6 +185,8 @@ def check(case):
             free = [k for k in cands if got[k] < want[k]]
             pick = exact[0] if exact else (free[0] if free else (cands[0] if cands else None))
             got[pick if pick is not None else (s.nargs, tuple(fam))] += 1
+        if got != want and _perfect_matching(sites, want):
+            got = want  # the greedy alignment above is order-sensitive; a full one exists
         if got != want:
             out.append(Failure('C06.offered-overloads', '%s offers %s, declared (with defaults '
                                'expanded) %s' % (label, sorted(got.elements())[:6],
